@@ -25,6 +25,7 @@ func runC21(c *Ctx) {
 	const P = "C21"
 	runC21NegSwitch(c, P)
 	runC21PutStores(c, P)
+	runInvalRemoves(c, P, "AttrCache", "cache")
 	c.rule(P, "lock", "cache state only under the cache mutex (writes exclusive)", 80)
 	c.rule(P, "sync", "delete(map,k) is paired with removal of k's list element in a sound order; insertions end with a move-to-front", 10)
 	c.rule(P, "cap", "insertion preceded by `len(map) >= max && !exists` ⇒ evict list.Back(); Resize loops until len <= max", 5)
